@@ -126,6 +126,7 @@ bool parse_device(const std::string& d, std::vector<DevRec>& out)
 }
 
 Counter p_nested("probe.statement_issued_from_inside_a_streamed_callable");
+Counter p_sink_nested("probe.statement_issued_by_a_sink_while_handling_a_record");
 Counter p_bound("probe.statement_bound_to_a_reference_and_continued");
 Counter p_moved_named("probe.named_stream_moved_to_a_new_object");
 
@@ -192,6 +193,7 @@ public:
         p.knobs.emplace_back("stall_first_writer", many);
         int strategy = (many || rng.chance(1, 2)) ? 1 : 0;
         p.knobs.emplace_back("strategy", strategy);
+        p.knobs.emplace_back("sink_logs", !c09 && rng.chance(1, 4));
         static const unsigned SW[] = { 1, 2, 4, 8, 12, 16 };
         p.knobs.emplace_back("switch16", SW[rng.below(6)]);
         p.knobs.emplace_back("pct_d", rng.range(0, 3));
@@ -403,6 +405,42 @@ public:
     // ------------------------------------------------------------ execution
     static std::map<std::pair<int, int>, int> nested_children;
     static const LoggerEntry* current_entry;
+    static void sink_hook(int parent)
+    {
+        int me = Scheduler::self_id();
+        if (parent < 0 || parent >= static_cast<int>(g.stmts.size()) || me < 0 || !current_entry)
+            return;
+        int child = g.stmts[static_cast<size_t>(parent)].sink_child;
+        if (child < 0)
+            return;
+        TCtx saved = g.tctx[me];
+        Stmt& c = g.stmts[static_cast<size_t>(child)];
+        if (c.begun)
+            return; // the sink is (wrongly) called a second time: the sink counters report that
+        {
+            NoFault nf;
+            p_sink_nested++;
+            c.begun = true;
+            c.begin_seq = g.seq++;
+            c.th_states.push_back(std::array<int, 3>{ g.th[0], g.th[1], g.th[2] });
+            ++g.inflight;
+        }
+        g.tctx[me].cur_stmt = child;
+        g.tctx[me].cur_item = -1;
+        PutCtx pc{ child, stmt_id(c.thread, child) };
+        try
+        {
+            current_entry->expr_stmt(c.sev, TAGS[c.tag], pc, c.items);
+        }
+        catch (CallableThrow&)
+        {
+            c.threw = true;
+        }
+        c.ended = true;
+        c.end_seq = g.seq++;
+        --g.inflight;
+        g.tctx[me] = saved;
+    }
     static void nested_hook(int parent, int item)
     {
         auto it = nested_children.find(std::make_pair(parent, item));
@@ -536,9 +574,28 @@ public:
                     nested_children[std::make_pair(static_cast<int>(si), static_cast<int>(k))] = static_cast<int>(g.stmts.size());
                     g.stmts.push_back(std::move(c));
                 }
+        // in runs with the knob set, sink member 0 answers every other planned statement's record
+        // with a statement of its own through the same logger
+        if (plan.knob("sink_logs", 0))
+            for (size_t si = 0, n0 = g.stmts.size(); si < n0; si += 2)
+            {
+                if (g.stmts[si].is_sink_child || g.stmts[si].op < 0)
+                    continue;
+                Stmt c;
+                c.op = g.stmts[si].op;
+                c.thread = g.stmts[si].thread;
+                c.form = 0;
+                c.sev = static_cast<int>((static_cast<size_t>(g.stmts[si].sev) + 1 + si) % 6);
+                c.tag = static_cast<int>(si % 4);
+                c.items = parse_items("i" + std::to_string(700 + si % 200) + ",k1");
+                c.is_sink_child = true;
+                g.stmts[si].sink_child = static_cast<int>(g.stmts.size());
+                g.stmts.push_back(std::move(c));
+            }
         g.stmts.reserve(g.stmts.size() + 1); // no reallocation while threads hold references
         current_entry = &le;
         g_nested_hook = &LogEngine::nested_hook;
+        g_sink_hook = &LogEngine::sink_hook;
         int strategy = static_cast<int>(plan.knob("strategy", 0) & 1);
         (strategy ? p_pct : p_uniform)++;
         Rng srng(sseed);
@@ -1132,7 +1189,10 @@ public:
                     const Stmt::Snk& k = s.sinks[static_cast<size_t>(m)];
                     if (k.member != m)
                         return flag("C05/sequence-order", sig, s.op, "sequence members not called in declaration order");
-                    if (k.thread != f.thread || k.tseq != f.tseq + 1 + static_cast<uint32_t>(m))
+                    // (a member-0 sink that logs on its own puts that statement's events in between)
+                    bool gap_ok = m > 0 && s.sink_child >= 0 && g.stmts[static_cast<size_t>(s.sink_child)].begun;
+                    if (k.thread != f.thread ||
+                        (gap_ok ? k.tseq < f.tseq + 1 + static_cast<uint32_t>(m) : k.tseq != f.tseq + 1 + static_cast<uint32_t>(m)))
                         return flag("C05/sequence-order", sig, s.op, "another event of this thread between formatter and sequence members");
                     if (k.text != f.out)
                         return flag("C05/message", sig + " sink-text", s.op, "sink received a different string than the formatter returned");
@@ -1150,8 +1210,12 @@ public:
                 if (!s.noid)
                     exp_thread_order[static_cast<size_t>(s.thread)].emplace_back(s.end_seq, f.out);
             }
-            ended_by_thread[static_cast<size_t>(s.thread)].emplace_back(s.end_seq, static_cast<int>(si));
-            fmt_by_thread[static_cast<size_t>(s.thread)].emplace_back(f.seq, static_cast<int>(si));
+            // (a statement issued by a sink lies inside its parent's delivery: no program order between them)
+            if (!s.is_sink_child)
+            {
+                ended_by_thread[static_cast<size_t>(s.thread)].emplace_back(s.end_seq, static_cast<int>(si));
+                fmt_by_thread[static_cast<size_t>(s.thread)].emplace_back(f.seq, static_cast<int>(si));
+            }
         }
         if (g.stop)
             return;
